@@ -556,11 +556,163 @@ def rule_r5(F, rep):
     rep.floor(R, n, 90, "escape bytes")
 
 
+NUM_CLASSES = {"digit": ord("7"), "underscore": ord("_"), "dot": ord("."), "e": ord("e"), "E": ord("E"), "plus": ord("+"),
+               "minus": ord("-"), "other": ord("x"), "eof": None}
+ANY = None
+NUM_SPEC = {
+    # (state, underscore flag) -> class -> expected outcome; ANY = not constrained by the lexical grammar as transcribed
+    ("IntDigits", 0): {"digit": ("IntDigits", 0), "underscore": ("IntDigits", 1), "dot": ("Dot",), "e": ("Exp",), "E": ("Exp",),
+                       "plus": "break", "minus": "break", "other": "break", "eof": "break"},
+    ("IntDigits", 1): {"digit": ("IntDigits", 0), "underscore": "MissingDigitAfterUnderscore", "dot": ANY, "e": ANY, "E": ANY,
+                       "plus": "MissingDigitAfterUnderscore", "minus": "MissingDigitAfterUnderscore",
+                       "other": "MissingDigitAfterUnderscore", "eof": "MissingDigitAfterUnderscore"},
+    ("Dot", None): {"digit": ("FracDigits", 0), "underscore": "MissingFracDigits", "dot": "MissingFracDigits", "e": "MissingFracDigits",
+                    "E": "MissingFracDigits", "plus": "MissingFracDigits", "minus": "MissingFracDigits", "other": "MissingFracDigits",
+                    "eof": "MissingFracDigits"},
+    ("FracDigits", 0): {"digit": ("FracDigits", 0), "underscore": ("FracDigits", 1), "dot": "break", "e": ("Exp",), "E": ("Exp",),
+                        "plus": "break", "minus": "break", "other": "break", "eof": "break"},
+    ("FracDigits", 1): {"digit": ("FracDigits", 0), "underscore": "MissingDigitAfterUnderscore", "dot": "MissingDigitAfterUnderscore",
+                        "e": ANY, "E": ANY, "plus": "MissingDigitAfterUnderscore", "minus": "MissingDigitAfterUnderscore",
+                        "other": "MissingDigitAfterUnderscore", "eof": "MissingDigitAfterUnderscore"},
+    ("Exp", None): {"digit": ("ExpDigits", 0), "plus": ("ExpSign",), "minus": ("ExpSign",), "underscore": "MissingExpDigits",
+                    "dot": "MissingExpDigits", "e": "MissingExpDigits", "E": "MissingExpDigits", "other": "MissingExpDigits",
+                    "eof": "MissingExpDigits"},
+    ("ExpSign", None): {"digit": ("ExpDigits", 0), "plus": "MissingExpDigits", "minus": "MissingExpDigits", "underscore": "MissingExpDigits",
+                        "dot": "MissingExpDigits", "e": "MissingExpDigits", "E": "MissingExpDigits", "other": "MissingExpDigits",
+                        "eof": "MissingExpDigits"},
+    ("ExpDigits", 0): {"digit": ("ExpDigits", 0), "underscore": ("ExpDigits", 1), "dot": "break", "e": "break", "E": "break",
+                       "plus": "break", "minus": "break", "other": "break", "eof": "break"},
+    ("ExpDigits", 1): {"digit": ("ExpDigits", 0), "underscore": "MissingDigitAfterUnderscore", "dot": "MissingDigitAfterUnderscore",
+                       "e": "MissingDigitAfterUnderscore", "E": "MissingDigitAfterUnderscore", "plus": "MissingDigitAfterUnderscore",
+                       "minus": "MissingDigitAfterUnderscore", "other": "MissingDigitAfterUnderscore", "eof": "MissingDigitAfterUnderscore"},
+}
+
+
+def rule_r6(F, rep):
+    R = rep.rule("C14.R6", "number tokens follow the lexical grammar: the transition table of lex_number over (state, next byte "
+                 "class) — digits, one `_` only between digits, `.` followed by a digit, `e`/`E` with optional sign followed by a "
+                 "digit — equals the grammar's automaton, each dead end is its specific error")
+    fn = F.fn("<%s>::lex_number" % LEXER)
+    rep.fn(fn)
+    body = fn.body
+    ST = [q for q in F.adts if q.endswith("lex_number::State")]
+    LEXERR = [q for q in F.adts if q.endswith("LexError")]
+    if not ST:
+        raise AnchorMissing("lex_number::State")
+    ST = ST[0]
+    head = None
+    state_l = None
+    for bb, si, st in body.assigns():
+        rv = st["rv"]
+        if rv["k"] == "discr" and rv.get("adt") == ST and not rv["p"]["p"]:
+            head, state_l = bb, rv["p"]["l"]
+            break
+    if head is None:
+        raise kwalk.WalkLimit("lex_number: state dispatch not found")
+
+    def pred_on(clo_q, byte):
+        c = F.fn_opt(clo_q)
+        if c is None or byte is None:
+            return 0 if byte is None else None
+        cw = kwalk.Walker(F, c.body, want_ret=True)
+        res = set()
+        for kind, marks, ret in cw.run(0, {"2": byte}):
+            res.add(dict(ret or ()).get("0"))
+        if len(res) == 1 and isinstance(next(iter(res)), int):
+            return next(iter(res))
+        return None
+    n = 0
+    for (sv, us), row in NUM_SPEC.items():
+        for cls, want in row.items():
+            byte = NUM_CLASSES[cls]
+
+            def hook(w, bb, t, env, args, byte=byte):
+                nme = callee_name(t) or ""
+                dst = w.norm(env, t["dst"])
+                used = env.get("#used", 0)
+                cur = None if used else byte
+                if nme == "<%s>::eat_byte" % LEXER:
+                    b = args[1] if len(args) > 1 else None
+                    if isinstance(b, int):
+                        if cur is not None and b == cur:
+                            env["#used"] = 1
+                            return 1
+                        return 0
+                    return None
+                if nme.startswith("<%s>::eat_get_byte_if" % LEXER) or nme.startswith("<%s>::eat_byte_if" % LEXER):
+                    clo = None
+                    for x in t["xs"][1:]:
+                        if "t" in x and w.body.ty(x["t"])["k"] == "closure":
+                            clo = w.body.ty(x["t"])["d"]
+                    r = pred_on(clo, cur) if clo else None
+                    if r is None:
+                        return None
+                    if r:
+                        env["#used"] = 1
+                    if "eat_get_byte_if" in nme:
+                        if r:
+                            env["%s@Some.0" % dst] = cur
+                            return ("var", "core::option::Option", "Some")
+                        return ("var", "core::option::Option", "None")
+                    return int(bool(r))
+                if nme in ("<alloc::string::String>::len", "<str>::len"):
+                    return 2          # not the leading-zero case
+                return None
+
+            def on_term(w, bb, t, env):
+                if bb == head and env.get("#started"):
+                    v = env.get(str(state_l))
+                    pay = env.get("%d@%s.0" % (state_l, v[2])) if isinstance(v, tuple) else None
+                    return (kwalk.STOP, ("next", v[2] if isinstance(v, tuple) and v[0] == "var" else "?", pay))
+                if bb == head:
+                    env["#started"] = 1
+                if t["k"] == "call" and (callee_name(t) or "") == "<%s>::commit_token" % LEXER:
+                    return (kwalk.STOP, ("break",))
+                return None
+
+            def on_stmt(w, bb, idx, st, env):
+                if st["k"] == "assign" and st["rv"]["k"] == "agg" and st["rv"]["ak"] == "adt" and st["rv"]["adt"] in LEXERR:
+                    return ("err", st["rv"]["v"])
+                return None
+            env0 = {str(state_l): ("var", ST, sv)}
+            if us is not None:
+                env0["%d@%s.0" % (state_l, sv)] = us
+            w = kwalk.Walker(F, body, call_result=hook, on_term=on_term, on_stmt=on_stmt, want_ret=True)
+            outs = w.run(head, env0)
+            rep.states += w.states_explored
+            res = set()
+            for kind, marks, ret in outs:
+                if kind.startswith("diverge"):
+                    continue
+                nx = [m for m in marks if m[0] == "next"]
+                er = [m[1] for m in marks if m[0] == "err" and m[1] != "ExpOverflow"]
+                if nx:
+                    m = nx[-1]
+                    res.add((m[1],) + ((m[2],) if isinstance(m[2], int) else ()))
+                elif er:
+                    res.add(er[0])
+                elif ("break",) in marks or kind == "return":
+                    res.add("break")
+            n += 1
+            if want is ANY:
+                rep.ob(R, "lex_number|%s%s|%s" % (sv, "" if us is None else "(%d)" % us, cls), True)
+                continue
+            ok = res == {want}
+            rep.ob(R, "lex_number|%s%s|%s" % (sv, "" if us is None else "(%d)" % us, cls), ok,
+                   {"state": sv, "after_underscore": us, "next": cls, "outcome": sorted(map(str, res))} if cls in ("underscore", "dot") else None)
+            if not ok:
+                rep.violation(R, "lex_number|%s%s|%s" % (sv, "" if us is None else "_%d" % us, cls),
+                              "lexing a number in state %s%s with next byte class `%s` gives %s; the lexical grammar requires %s"
+                              % (sv, "" if us is None else " (after underscore: %d)" % us, cls, sorted(map(str, res)), want), fn.loc)
+    rep.floor(R, n, 70, "state x byte-class transitions")
+
+
 def run(F, rep, tier):
     rule_r3(F, rep)
     rule_r2(F, rep)
     rule_r1(F, rep)
     rule_r4(F, rep)
     rule_r5(F, rep)
+    rule_r6(F, rep)
     rep.assume("text-block indentation stripping, number token values and operator maximal munch are behavioural and not decided")
     return EXPLANATION
